@@ -105,6 +105,14 @@ impl QSrv {
         self.completed += 1;
         Ok(ch)
     }
+    /// Hostile completion: write an arbitrary (id, len) element at the current used slot and advance
+    /// the used index by `jump` (1 = normal).  Does not touch `held`.
+    pub fn hostile_complete(&mut self, id: u32, len: u32, jump: u16) -> Result<(), String> {
+        let slot = self.dev.used_idx & (self.dev.size.wrapping_sub(1));
+        self.dev.write_used_elem(slot, id, len)?;
+        self.dev.used_idx = self.dev.used_idx.wrapping_add(jump);
+        self.dev.store_used_idx(self.dev.used_idx)
+    }
     /// Does a spec-following device interrupt for what it has published since the last interrupt decision?
     pub fn wants_interrupt(&mut self) -> bool {
         let new = self.dev.used_idx;
